@@ -104,6 +104,7 @@ def operations(kind: str, n_tags: int) -> List[tuple]:
     for i in range(2):
         for tag in tags:
             ops.append(('load', i, tag))
+            ops.append(('continue', i, tag))
             ops.append(('delete', i, tag))
         ops.append(('list_proc', i))
         ops.append(('delete_proc', i))
@@ -187,6 +188,23 @@ class System:
                 elif status == 'ok':
                     bad.append(('load-of-absent-key-returns', {'persister': name, 'id_kind': self.kind}, repr(value)[:100]))
             return bad
+        if kind == 'continue':
+            # a process recreated from the stored snapshot runs to its end (in place mutation of what it holds included);
+            # the store must not notice: every stored key still loads as the snapshot taken when it was saved
+            key = (pids[op[1]], op[2])
+            if key not in self.model:
+                return bad
+            ends = []
+            for name, p in (('memory', self.mem), ('pickle', self.pkl)):
+                try:
+                    ends.append(self.run_loaded(p.load_checkpoint(*key)))
+                except Exception as exc:  # noqa: BLE001
+                    bad.append(('continuing-a-loaded-snapshot-raised', {'persister': name, 'id_kind': self.kind}, repr(exc)))
+                    ends.append(None)
+            if None not in ends and ends[0] != ends[1]:
+                bad.append(('continued-snapshots-differ', {'id_kind': self.kind}, {'memory': ends[0], 'pickle': ends[1]}))
+            bad.extend(self.audit('continue'))
+            return bad
         if kind in ('list', 'list_proc'):
             if kind == 'list':
                 res = both(lambda p: p.get_checkpoints())
@@ -222,6 +240,39 @@ class System:
         bad.extend(self.apply(('list',)))
         return bad
 
+    def run_loaded(self, bundle: Any) -> Any:
+        proc = bundle.unbundle(persistence.LoadSaveContext(loop=self.loop))
+        if isinstance(proc, Chain):
+            self.loop.create_task(proc.step_until_terminated())
+            self.loop.drain()
+        else:
+            self.loop.create_task(proc.step_until_terminated())
+            self.loop.drain()
+            for _ in range(4):
+                if proc.has_terminated():
+                    break
+                proc.resume('go')
+                self.loop.drain()
+        ctx = canon_bundle(dict(proc.ctx.__dict__)) if isinstance(proc, Chain) else None
+        return (str(proc.state), repr(proc.result() if proc.state == plumpy.ProcessState.FINISHED else None),
+                repr(canon_bundle(proc.outputs)), repr(ctx))
+
+    def audit(self, after: str) -> List[Tuple[str, Dict[str, Any], Any]]:
+        """Every stored key loads, from both persisters, as the snapshot taken when it was saved."""
+        bad: List[Tuple[str, Dict[str, Any], Any]] = []
+        for key, want in self.model.items():
+            for name, p in (('memory', self.mem), ('pickle', self.pkl)):
+                try:
+                    got = canon_bundle(p.load_checkpoint(*key))
+                except Exception as exc:  # noqa: BLE001
+                    bad.append(('load-of-stored-key-raised', {'persister': name, 'id_kind': self.kind, 'after': after}, repr(exc)))
+                    continue
+                if got != want:
+                    keys = sorted(k for k in set(got) | set(want) if got.get(k) != want.get(k))
+                    bad.append(('load-returns-other-snapshot', {'persister': name, 'id_kind': self.kind, 'after': after,
+                                                                'differs': keys[0] if keys else '?'}, keys))
+        return bad
+
     def key(self) -> Any:
         return (tuple(sorted(((repr(k), repr(v.get('_state', {}).get('msg')) + repr(sorted(v.get('OUTPUTS', {})))
                                + repr(v.get('_context', {}).get('items')) + repr(v.get('_state', {}).get('!!meta', {}).get('class_name')))
@@ -235,6 +286,8 @@ def build(kind: str, history: Tuple[tuple, ...]) -> Tuple[System, List[Tuple[str
         found = system.apply(op)
         if i == len(history) - 1:
             bad = found
+            if op[0] == 'advance':
+                bad = bad + system.audit('advance')
     return system, bad
 
 
@@ -299,7 +352,8 @@ def run_check(tier: str, seed: int, workers: Any) -> Dict[str, Any]:
     coverage = {
         'states': total['states'], 'transitions': total['transitions'], 'traces_validated_against_impl': total['transitions'],
         'evaluations': total['transitions'], 'distinct_nontrivial': total['overwrites'],
-        'rule': 'BFS over histories of save(p,tag) / advance(p) / load / delete / delete_process / listings on 2 live '
+        'rule': 'BFS over histories of save(p,tag) / advance(p) / load / continue (recreate a process from the stored '
+                'snapshot and run it to its end, then re-load every stored key) / delete / delete_process / listings on 2 live '
                 'processes x tags, for integer, UUID and string ids (ids and tags chosen so that one is a string prefix of '
                 'the other); canonical state = stored (pid, tag) -> snapshot version + progress of the live processes; '
                 'both persisters driven in lock-step and compared with a dictionary model after every operation; '
